@@ -109,7 +109,7 @@ def check(run, prog):
         bounds = [None, -7, -2, 0, 1, 3, 9]
     else:
         counts = [1, 2, 3, 4, 5, 8]
-        bounds = [None] + list(range(-9, 10))
+        bounds = [None, -9, -6, -3, -1, 0, 1, 2, 4, 7, 9]
     nsample = 7       # deliberately different from every channel count
     n_slices = 0
     for cls_name in (("RadioSignal",) if run.tier == "quick" else ("RadioSignal", "BasebandSignal", "FullStokesSignal")):
